@@ -529,6 +529,36 @@ example : fieldsEq (.int 0) [("core", .int 0), ("ram", .int 0)] [("core", .int 0
 example : optNe (fieldsEq .null) (some [("vlan", .null)]) none = true ∧ optNe (fieldsEq .null) none (some [("vlan", .null)]) = true ∧
     optNe (fieldsEq .null) (none : Option Fields) none = false := by decide
 
+/-- no normalisation between a stored value and the comparison: a label field (a capacity field) of an element set to ANY other
+value - a string that differs only in letter case, by a blank or a leading zero, a list with its elements in another order, a
+one-element list for the bare string - raises LABELS (CAPACITIES) in `prop_diff`, in both directions (C17-r6-1: a case-folding
+`Labels.__eq__` loses exactly these) -/
+theorem field_value_change_is_reported (a : RawProps) (l : Fields) (f : String) (v w : FV)
+    (hn : (l.map (·.1)).Nodup) (hv : lookup l f = some v) (hne : w ≠ v) :
+    (a.labels = some l →
+      (propDiffRaw a { a with labels := some (setField l f w) }).labels = true ∧
+      (propDiffRaw { a with labels := some (setField l f w) } a).labels = true) ∧
+    (a.caps = some l →
+      (propDiffRaw a { a with caps := some (setField l f w) }).caps = true ∧
+      (propDiffRaw { a with caps := some (setField l f w) } a).caps = true) := by
+  have hL := fieldsEq_setField_ne .null l f v w hn hv hne
+  have hC := fieldsEq_setField_ne (.int 0) l f v w hn hv hne
+  constructor
+  · intro h
+    simp [propDiffRaw, h, optNe, optEq, hL.1, hL.2]
+  · intro h
+    simp [propDiffRaw, h, optNe, optEq, hC.1, hC.2]
+
+-- non-vacuity, on the values of the seeded demo: the instance name in another letter case, a BGP key, a list reordered
+example : lookup [("instance", FV.str "Instance-001A"), ("vlan", .null)] "instance" = some (.str "Instance-001A") ∧
+    FV.str "instance-001a" ≠ .str "Instance-001A" ∧
+    (([("instance", FV.str "Instance-001A"), ("vlan", .null)] : Fields).map (·.1)).Nodup := by decide
+example : fieldsEq .null [("bgp_key", .str "SecretKey/AbCdEf")] [("bgp_key", .str "secretkey/abcdef")] = false ∧
+    fieldsEq .null [("vlan_range", .strs ["1-10", "20-30"])] [("vlan_range", .strs ["20-30", "1-10"])] = false ∧
+    fieldsEq .null [("vlan", .str "100")] [("vlan", .strs ["100"])] = false ∧
+    fieldsEq .null [("vlan", .str "100")] [("vlan", .str "0100")] = false ∧
+    fieldsEq (.int 0) [("bw", .int 9007199254740992)] [("bw", .int 9007199254740993)] = false := by decide
+
 /-- `JSONData.__eq__` (same class) is an equivalence: it is equality of canonical forms -/
 theorem user_data_eq_equivalence (a b c : J) :
     udEq a a = true ∧ udEq a b = udEq b a ∧ (udEq a b = true → udEq b c = true → udEq a c = true) ∧
